@@ -55,6 +55,8 @@ def classify(prog, cfg, res, ref):
         return "odpor-random-with-created-actor-spurious-crash"
     if algo == "BeFS" and strat == "uniform" and rc == 0:
         return "befs-uniform-incomplete-exploration"
+    if rc == 0 and red == "odpor" and "X" in f["ops"]:
+        return "odpor-random-missing-outcome"
     if red == "udpor" and rc == 0 and ("L" in f["ops"]):
         return "udpor-mutex-incomplete-exploration"
     if red in ("dpor", "sdpor", "udpor") and "t" in f["ops"] and rc == 0:
